@@ -284,7 +284,11 @@ pub fn probes(w: &World, rec: &mut Recorder, ix: &Ix, cfg: &MatrixCfg, rng_salt:
                         if names.contains(&auth_slot.to_string()) {
                             let mut v = ix.clone();
                             v.set_key(auth_slot, delegate);
-                            probe(w, rec, &v, json!({"kind": "auth", "slot": auth_slot, "variant": format!("delegate:{amt}")}), &[approve]);
+                            probe(w, rec, &v, json!({"kind": "auth", "slot": auth_slot, "variant": format!("delegate:{amt}")}), &[approve.clone()]);
+                            // while a delegate is approved, somebody who is neither the holder nor the delegate signs
+                            let mut v = ix.clone();
+                            v.set_key(auth_slot, w.users["U3"]);
+                            probe(w, rec, &v, json!({"kind": "auth", "slot": auth_slot, "variant": format!("stranger_while_delegated:{amt}")}), &[approve]);
                         }
                     }
                     // the token moved to somebody else's account: the old (now empty) account no longer authorises
